@@ -188,6 +188,17 @@ def register(builtin):
         if not out:
             if timeout == 0: return 0
             if timeout > 0:
+                th = st.threads[st.cur]
+                if len([t for t in st.threads if t.status != 'done']) > 1 and B._wake_reason(st, th.tid) != 'timeout':
+                    # other threads exist: wait until something is ready; the timeout fires only when the scheduler lets time pass
+                    th.status = 'blocked'
+                    def w2(ex_, st_, t_, ep=ep):
+                        nn = net(st_); ee = nn.fds[ep]
+                        for fd, (mask, data) in ee['interest'].items():
+                            if not nn.fds[fd]['closed'] and (ready_mask(nn, fd) & (mask | EPOLLHUP)): return True
+                        return 'timeout'
+                    th.wait = w2
+                    raise B.Blocked()
                 # nothing ready: the timeout expires (time passes)
                 st.ghost['clock_ns'] = B._clock(st) + timeout * 1000000
                 return 0
